@@ -183,6 +183,24 @@ func TestC06RefusedChangesNothing(t *testing.T) {
 			if ownErr != nil {
 				rt.Fatalf("after a refused %s (%s, forged nonce now+10min) the legitimate owner %s sent %s with a fresh smaller nonce and was refused: %v (the refused request consumed the nonce)", method, kind, victim.name, ownWhat, ownErr)
 			}
+			// "no host connection is registered": the pool must still reach the host on the connection it registered on
+			// (a fresh requester asks for a peer; the whitelist instruction must arrive on the host's own connection)
+			if _, err := s.update(host, nil, 77, false, false); err != nil {
+				rt.Fatalf("host check-in before the probe: %v", err)
+			}
+			probeIdx := 3
+			if err := s.connect(probeIdx, s.openConn(probeIdx, ""), false, "geth", ""); err != nil {
+				rt.Fatalf("probe client connect: %v", err)
+			}
+			hostConn := s.agents[host].lastConn()
+			callsBefore := len(hostConn.svc.Calls())
+			presp, perr := s.peer(probeIdx, 1, "")
+			if perr != nil || len(presp.Peers) != 1 || string(presp.Peers[0].ID) != hostID {
+				rt.Fatalf("after a refused %s (%s) against %s the pool can no longer offer the registered host: peers=%v err=%v", method, kind, victim.name, presp, perr)
+			}
+			if len(hostConn.svc.Calls()) != callsBefore+1 {
+				rt.Fatalf("after a refused %s (%s, sent over the client's connection) the whitelist instruction for the host did not arrive on the host's own connection (the refused request re-registered the host's route)", method, kind)
+			}
 			transport := "direct"
 			if viaRPC {
 				transport = "jsonrpc"
